@@ -296,7 +296,9 @@ def fieldVerdict (cfg : Cfg) (st : Strm) (f : Hpack.Field) : Option SErr :=
   else if k == Gen.s_StringTE && v != Gen.s_StringTrailers then some (.reset Gen.c_ProtocolError)
   else if k == Gen.s_StringContentLength then
     match parseUint v with
-    | some n => if cfg.maxBody > 0 && n > (cfg.maxBody : Int) then some (.reset Gen.c_EnhanceYourCalm) else none
+    | some n =>
+      if st.hasCL && n != st.contentLength then some (.reset Gen.c_ProtocolError)   -- two lengths that disagree
+      else if cfg.maxBody > 0 && n > (cfg.maxBody : Int) then some (.reset Gen.c_EnhanceYourCalm) else none
     | none => some (.reset Gen.c_ProtocolError)
   else none
 
@@ -355,7 +357,9 @@ def handleHeaderFrame (s : Srv) (st : Strm) (fr : Frame) : Srv × Strm × Option
     (s, st, some (.goAway Gen.c_ProtocolError "stream not open"))
   else
   -- a trailer block that goes on in CONTINUATION: a block is in progress again
-  let st := if st.headersFinished && !Frame.hasFlag fr.flags Gen.c_FlagEndHeaders then { st with headersFinished := false } else st
+  let st := if st.headersFinished && !Frame.hasFlag fr.flags Gen.c_FlagEndHeaders then { st with headersFinished := false, regularSeen := true }
+            else if st.headersFinished then { st with regularSeen := true }   -- no pseudo-header fields in trailers
+            else st
   if (match prio with | some (dep, _) => dep == st.id | none => false) then
     (s, st, some (.goAway Gen.c_ProtocolError "stream that depends on itself"))
   else
@@ -518,8 +522,8 @@ def unknownStream (r : R) (fr : Frame) (wasClosing : Bool) : R × Option Nat :=
       (closeIfDone (writeGoAway r fr.stream Gen.c_StreamClosedError "closed-stream"), none)
     else (r, none)
   else if r.s.openStreams ≥ (r.s.cfg.maxStreams : Int) || wasClosing then
-    (writeReset r fr.stream Gen.c_RefusedStreamError, none)
-  else if fr.stream < r.s.lastID then
+    (writeReset { r with s := { r.s with lastRefused := max r.s.lastRefused fr.stream } } fr.stream Gen.c_RefusedStreamError, none)
+  else if fr.stream ≤ r.s.lastID || fr.stream ≤ r.s.lastRefused then
     (closeIfDone (writeGoAway r fr.stream Gen.c_ProtocolError "lower-id"), none)
   else
     let st : Strm := { uid := r.s.nextUid, id := fr.stream, window := r.s.curInitWin, origType := fr.typ }
